@@ -86,8 +86,8 @@ where
     let ninv = num_inverted::<M, S>(&enc);
     let before_seal = enc.bulk().len();
     let sealed: Vec<M::W> = enc.into_compressed().unwrap_infallible();
-    let k = sealed.len() - before_seal - ninv; // number of seal words proper (1 or 2)
-    run.count(if k == 2 { "seal_two_words" } else { "seal_one_word" }, 1);
+    let k = sealed.len() - before_seal - ninv; // number of seal words proper (1, or the point word padded with zero words)
+    run.count(if k >= 2 { "seal_two_words" } else { "seal_one_word" }, 1);
 
     // ---- analytic side-oracle
     let mut v: u128 = 0;
@@ -102,7 +102,7 @@ where
     };
     let (upper, _) = add_mod(lower, range, s);
     let frac = upper & (pow2(s - w) - 1);
-    if k == 2 || frac < 16 {
+    if k >= 2 || frac < 16 {
         run.nontrivial();
     }
     if !pinned {
